@@ -140,7 +140,9 @@ Proof. intros [G1 G2] H. split; cbn; [lia|exact G2]. Qed.
 
 Lemma serve_frame_good c qt rt st id f : good st -> good (serve_frame c qt rt st id f).
 Proof.
-  intros G. unfold serve_frame. destruct (tf_miss f); [|apply stage_good; exact G].
+  intros G. unfold serve_frame.
+  assert (Hc : forall x, good x -> good (count_served x)) by (intros x [X1 X2]; split; cbn; assumption).
+  apply Hc. destruct (tf_miss f); [|apply stage_good; exact G].
   pose proof (before_write_facts st) as (B1 & B2 & _). pose proof w_write_pos.
   pose proof (flush_good c (before_write st) (before_write_good st G) ltac:(lia)) as [F1 _].
   destruct (flush c (before_write st)) as [st1 e]. cbn [fst] in F1.
@@ -193,4 +195,236 @@ Proof.
   unfold run_conn. apply Forall_rev.
   apply (serve_conn_good c qt _ frames 1%nat w_first (st0 c)); [|exact w_first_pos].
   split; cbn; [lia|constructor].
+Qed.
+
+(* ---- exactly one reply per served frame, for a client that keeps reading ---- *)
+Definition wr (tr : list tev) : list nat := written_ids (rev tr).
+Lemma wr_cons e tr : wr (e :: tr) = wr tr ++ match e with TWrite _ _ _ true ids => ids | _ => [] end.
+Proof. unfold wr, written_ids. cbn [rev]. rewrite flat_map_app. cbn. rewrite app_nil_r. reflexivity. Qed.
+
+Definition acct (st : sst) : list nat := wr (s_trace st) ++ s_held st.
+(* nothing the client is owed changed *)
+Definition same (st st' : sst) : Prop :=
+  s_werr st' = s_werr st /\ wr (s_trace st') = wr (s_trace st) /\ s_held st' = s_held st /\ s_served st' = s_served st.
+Lemma same_refl st : same st st. Proof. repeat split. Qed.
+Lemma same_trans a b c : same a b -> same b c -> same a c.
+Proof. intros (A1 & A2 & A3 & A4) (B1 & B2 & B3 & B4). repeat split; congruence. Qed.
+
+Lemma arm_same st : same st (arm st).
+Proof.
+  unfold arm. destruct (s_armed st =? s_deadline st); [apply same_refl|].
+  unfold same, emit; cbn [s_werr s_trace s_held s_served]; rewrite wr_cons, app_nil_r; repeat split.
+Qed.
+Lemma before_write_same st : same st (before_write st).
+Proof. unfold before_write. eapply same_trans; [|apply arm_same]. repeat split. Qed.
+
+Lemma conn_read_same c st : same st (fst (conn_read c st)).
+Proof.
+  unfold conn_read. destruct (expired st); [apply same_refl|].
+  destruct (arrived (s_now st) (s_inq st)) as [n q].
+  destruct (0 <? n); [repeat split|].
+  destruct ((0 <=? tc_eof c) && (tc_eof c <=? s_now st)); [apply same_refl|].
+  destruct q as [|x q'].
+  - destruct ((0 <=? tc_eof c) && negb (negb (s_armed st =? 0) && (s_armed st <=? tc_eof c))); [repeat split|].
+    destruct (negb (s_armed st =? 0)); [repeat split|].
+    unfold same, emit; cbn [s_werr s_trace s_held s_served]; rewrite wr_cons, app_nil_r; repeat split.
+  - destruct (negb (s_armed st =? 0) && (s_armed st <=? ch_t x) && negb ((0 <=? tc_eof c) && (tc_eof c <? s_armed st))); [repeat split|].
+    destruct ((0 <=? tc_eof c) && (tc_eof c <? ch_t x)); [repeat split|].
+    destruct (arrived (ch_t x) (x :: q')) as [n1 q1]. repeat split.
+Qed.
+
+Lemma read_until_same c fuel : forall st n, same st (fst (read_until c fuel st n)).
+Proof.
+  induction fuel as [|f IH]; intros st n; cbn.
+  - destruct (n <=? s_avail st); [apply same_refl|]. unfold same, emit; cbn [s_werr s_trace s_held s_served]; rewrite wr_cons, app_nil_r; repeat split.
+  - destruct (n <=? s_avail st); [apply same_refl|].
+    pose proof (conn_read_same c st) as R. destruct (conn_read c st) as [st1 ok]. cbn [fst] in R.
+    destruct ok; [eapply same_trans; [exact R|apply IH]|exact R].
+Qed.
+
+Lemma conn_write_nostall c st ids :
+  tc_stall c < 0 -> 0 <= s_now st -> s_now st < s_armed st ->
+  conn_write c st ids = (emit st (TWrite (s_now st) (s_now st) (s_armed st) true ids), true).
+Proof.
+  intros Hs H0 Hlt. unfold conn_write, expired, stalled.
+  replace (s_armed st =? 0) with false by lia. replace (s_armed st <=? s_now st) with false by lia.
+  replace (0 <=? tc_stall c) with false by lia. reflexivity.
+Qed.
+
+(* a flush for a reading client under a fresh bound: everything staged is written, once *)
+Lemma flush_nostall c st :
+  tc_stall c < 0 -> 0 <= s_now st -> s_now st < s_deadline st -> s_werr st = false ->
+  snd (flush c st) = false /\ s_werr (fst (flush c st)) = false /\ s_held (fst (flush c st)) = [] /\
+  wr (s_trace (fst (flush c st))) = wr (s_trace st) ++ s_held st /\ s_served (fst (flush c st)) = s_served st.
+Proof.
+  intros Hs H0 Hlt Hw. unfold flush. rewrite Hw.
+  destruct (s_held st) as [|h hs] eqn:Eh; [cbn; rewrite app_nil_r; repeat split; assumption|].
+  pose proof (arm_facts st) as (A1 & A2 & A3 & A4 & _). pose proof (arm_same st) as (S1 & S2 & S3 & S4).
+  rewrite (conn_write_nostall c (arm st) (h :: hs) Hs ltac:(lia) ltac:(lia)).
+  cbn. rewrite wr_cons. rewrite S2. repeat split. exact S4.
+Qed.
+
+Lemma stage_nostall c st id big :
+  tc_stall c < 0 -> 0 <= s_now st -> s_werr st = false ->
+  s_werr (stage c st id big) = false /\ acct (stage c st id big) = acct st ++ [id] /\
+  s_served (stage c st id big) = s_served st.
+Proof.
+  intros Hs H0 Hw. unfold stage. rewrite Hw. destruct big.
+  - pose proof (before_write_facts st) as (B1 & B2 & B3 & B4 & B5). pose proof w_write_pos.
+    pose proof (before_write_same st) as (S1 & S2 & S3 & S4).
+    pose proof (flush_nostall c (before_write st) Hs ltac:(lia) ltac:(lia) ltac:(congruence)) as (F1 & F2 & F3 & F4 & F5).
+    assert (G : good (before_write st)) by (split; [lia|constructor]).
+    (* the clock and the bound after a successful flush *)
+    pose proof (flush_good c (before_write st)) as FG.
+    destruct (flush c (before_write st)) as [st2 err] eqn:Ef. cbn [fst snd] in *. subst err.
+    assert (Hn : s_now st2 = s_now st /\ s_armed st2 = s_now st + w_write).
+    { clear FG. unfold flush in Ef. rewrite B5, Hw in Ef. rewrite B4 in Ef.
+      destruct (s_held st) as [|h hs].
+      - injection Ef as <-. split; assumption.
+      - pose proof (arm_facts (before_write st)) as (A1 & A2 & A3 & _).
+        rewrite (conn_write_nostall c (arm (before_write st)) (h :: hs) Hs ltac:(lia) ltac:(lia)) in Ef.
+        injection Ef as <-. cbn. split; lia. }
+    destruct Hn as [N1 N2].
+    rewrite (conn_write_nostall c st2 [id] Hs ltac:(lia) ltac:(lia)). cbn.
+    unfold acct. cbn. rewrite wr_cons, F3, F4, S2, S3. rewrite !app_nil_r. repeat split. congruence.
+  - cbn. unfold acct. cbn. rewrite app_assoc. repeat split.
+Qed.
+
+Definition J (st : sst) : Prop := s_werr st = false /\ acct st = seq 1 (s_served st).
+
+Lemma same_J st st' : same st st' -> J st -> J st'.
+Proof. intros (A1 & A2 & A3 & A4) [J1 J2]. unfold J, acct in *. rewrite A1, A2, A3, A4. split; assumption. Qed.
+
+Lemma serve_frame_J c qt rt st id f :
+  tc_stall c < 0 -> good st -> J st -> id = S (s_served st) -> J (serve_frame c qt rt st id f).
+Proof.
+  intros Hs G [J1 J2] Hid. destruct G as [G1 G2]. unfold serve_frame.
+  assert (Hfin : forall x, s_werr x = false -> acct x = acct st ++ [id] -> s_served x = s_served st -> J (count_served x)).
+  { intros x X1 X2 X3. split; [exact X1|]. unfold acct in *. cbn. rewrite X2, X3, J2, Hid.
+    change (S (s_served st)) with (1 + s_served st)%nat. rewrite <- seq_S. reflexivity. }
+  destruct (tf_miss f).
+  - pose proof (before_write_facts st) as (B1 & B2 & B3 & B4 & B5). pose proof w_write_pos.
+    pose proof (before_write_same st) as (S1 & S2 & S3 & S4).
+    pose proof (flush_nostall c (before_write st) Hs ltac:(lia) ltac:(lia) ltac:(congruence)) as (F1 & F2 & F3 & F4 & F5).
+    assert (Hnow : s_now (fst (flush c (before_write st))) = s_now st).
+    { unfold flush. rewrite B5, J1, B4. destruct (s_held st) as [|h hs]; [exact B1|].
+      pose proof (arm_facts (before_write st)) as (A1 & A2 & A3 & _).
+      rewrite (conn_write_nostall c (arm (before_write st)) (h :: hs) Hs ltac:(lia) ltac:(lia)). cbn. lia. }
+    destruct (flush c (before_write st)) as [st1 e]. cbn [fst snd] in *.
+    set (st2 := set_now st1 _).
+    assert (H2 : 0 <= s_now st2) by (unfold st2; cbn; lia).
+    assert (W2 : s_werr st2 = false) by exact F2.
+    destruct (stage_nostall c st2 id (tf_big f && (s_now st1 + tf_delay f <? rt + qt)) Hs H2 W2) as (T1 & T2 & T3).
+    apply Hfin; [exact T1| |unfold st2 in T3; cbn in T3; congruence].
+    rewrite T2. unfold acct, st2. cbn. rewrite F3, F4, S2, S3, app_nil_r. reflexivity.
+  - destruct (stage_nostall c st id false Hs G1 J1) as (T1 & T2 & T3). apply Hfin; assumption.
+Qed.
+
+Lemma before_read_J c st wait :
+  tc_stall c < 0 -> good st -> J st -> 0 < wait ->
+  snd (before_read c st wait) = false /\ J (fst (before_read c st wait)).
+Proof.
+  intros Hs [G1 G2] [J1 J2] Hw. unfold before_read. destruct (prefix_buffered st); [split; [reflexivity|split; assumption]|].
+  set (st1 := arm (set_deadline st (s_now st + wait))).
+  pose proof (arm_facts (set_deadline st (s_now st + wait))) as (A1 & A2 & A3 & A4 & A5 & _). cbn in A1, A2, A3, A4, A5.
+  pose proof (arm_same (set_deadline st (s_now st + wait))) as (S1 & S2 & S3 & S4). cbn in S1, S2, S3, S4.
+  fold st1 in A1, A2, A3, A4, A5, S1, S2, S3, S4.
+  destruct (flush_nostall c st1 Hs ltac:(lia) ltac:(lia) ltac:(congruence)) as (F1 & F2 & F3 & F4 & F5).
+  split; [exact F1|]. split; [exact F2|]. unfold acct in *. rewrite F3, F4, F5, S2, S3, S4, app_nil_r. exact J2.
+Qed.
+
+Lemma finish_J c st :
+  tc_stall c < 0 -> good st -> J st ->
+  wr (s_trace (finish c st)) = seq 1 (s_served (finish c st)).
+Proof.
+  intros Hs [G1 G2] [J1 J2]. unfold finish. cbn. rewrite wr_cons, app_nil_r.
+  destruct (s_held st) as [|h hs] eqn:Eh.
+  - unfold acct in J2. rewrite Eh, app_nil_r in J2. exact J2.
+  - pose proof (before_write_facts st) as (B1 & B2 & B3 & B4 & B5). pose proof w_write_pos.
+    pose proof (before_write_same st) as (S1 & S2 & S3 & S4).
+    destruct (flush_nostall c (before_write st) Hs ltac:(lia) ltac:(lia) ltac:(congruence)) as (F1 & F2 & F3 & F4 & F5).
+    rewrite F4, F5, S2, S3, S4. unfold acct in J2. rewrite Eh in J2. rewrite Eh. exact J2.
+Qed.
+
+Lemma serve_conn_J c qt fuel frames : forall id wait st,
+  tc_stall c < 0 -> good st -> J st -> id = S (s_served st) -> 0 < wait ->
+  let fin := serve_conn c qt fuel frames id wait st in
+  wr (s_trace fin) = seq 1 (s_served fin).
+Proof.
+  induction frames as [|f rest IH]; intros id wait st Hs G Jst Hid Hw; cbn [serve_conn].
+  - pose proof (before_read_good c st wait G Hw) as B. destruct (before_read_J c st wait Hs G Jst Hw) as [E JB].
+    destruct (before_read c st wait) as [st1 err]. cbn [fst snd] in *. subst err.
+    pose proof (read_until_good c fuel st1 frame_prefix_len B) as R.
+    pose proof (read_until_same c fuel st1 frame_prefix_len) as RS.
+    destruct (read_until c fuel st1 frame_prefix_len) as [st2 ok]. cbn [fst] in *.
+    pose proof (same_J _ _ RS JB) as J2.
+    destruct ok; cbn [negb]; [|apply finish_J; assumption].
+    apply finish_J; [exact Hs|apply good_emit; [exact R|reflexivity]|].
+    eapply same_J; [|exact J2]. unfold same, emit; cbn [s_werr s_trace s_held s_served]; rewrite wr_cons, app_nil_r; repeat split.
+  - pose proof (before_read_good c st wait G Hw) as B. destruct (before_read_J c st wait Hs G Jst Hw) as [E JB].
+    pose proof (before_read_J c st wait Hs G Jst Hw) as [_ JB'].
+    assert (Hsv : s_served (fst (before_read c st wait)) = s_served st).
+    { unfold before_read. destruct (prefix_buffered st); [reflexivity|].
+      pose proof (arm_facts (set_deadline st (s_now st + wait))) as (A1 & A2 & A3 & A4 & A5 & _). cbn in A1, A2, A5.
+      pose proof (arm_same (set_deadline st (s_now st + wait))) as (S1 & S2 & S3 & S4). cbn in S4.
+      destruct Jst as [J1 _]. destruct G as [G1 _].
+      destruct (flush_nostall c (arm (set_deadline st (s_now st + wait))) Hs ltac:(lia) ltac:(lia) ltac:(cbn in S1; congruence)) as (_ & _ & _ & _ & F5).
+      congruence. }
+    destruct (before_read c st wait) as [st1 err]. cbn [fst snd] in *. subst err.
+    pose proof (read_until_good c fuel st1 frame_prefix_len B) as R.
+    pose proof (read_until_same c fuel st1 frame_prefix_len) as RS.
+    destruct (read_until c fuel st1 frame_prefix_len) as [st2 ok]. cbn [fst] in *.
+    pose proof (same_J _ _ RS JB) as J2.
+    destruct ok; cbn [negb]; [|apply finish_J; assumption].
+    set (st3 := set_avail st2 _ _). set (st4 := set_deadline st3 _).
+    assert (G4 : good st4) by (apply set_deadline_good, set_avail_good, R).
+    assert (S24 : same st2 st4) by (repeat split).
+    set (st5 := if s_avail st4 <? tf_len f then arm st4 else st4).
+    assert (G5 : good st5) by (unfold st5; destruct (s_avail st4 <? tf_len f); [apply arm_good|]; exact G4).
+    assert (S45 : same st4 st5) by (unfold st5; destruct (s_avail st4 <? tf_len f); [apply arm_same|apply same_refl]).
+    pose proof (read_until_good c fuel st5 (tf_len f) G5) as R6.
+    pose proof (read_until_same c fuel st5 (tf_len f)) as RS6.
+    destruct (read_until c fuel st5 (tf_len f)) as [st6 ok2]. cbn [fst] in *.
+    assert (S26 : same st2 st6) by (eapply same_trans; [exact S24|eapply same_trans; [exact S45|exact RS6]]).
+    pose proof (same_J _ _ S26 J2) as J6.
+    destruct ok2; cbn [negb]; [|apply finish_J; assumption].
+    set (st7 := set_avail st6 _ _).
+    assert (G7 : good st7) by (apply set_avail_good, R6).
+    assert (J7 : J st7) by (eapply same_J; [|exact J6]; repeat split).
+    assert (Hsv7 : s_served st7 = s_served st).
+    { destruct RS as (_ & _ & _ & X1). destruct S26 as (_ & _ & _ & X2). unfold st7. cbn. congruence. }
+    assert (Hid7 : id = S (s_served st7)) by congruence.
+    pose proof (serve_frame_J c qt (s_now st3) st7 id f Hs G7 J7 Hid7) as J8.
+    pose proof (serve_frame_good c qt (s_now st3) st7 id f G7) as G8.
+    apply IH; [exact Hs|exact G8|exact J8| |exact w_idle_pos].
+    unfold serve_frame. cbn. f_equal.
+    destruct (tf_miss f).
+    + pose proof (before_write_same st7) as (S1 & S2 & S3 & S4).
+      destruct J7 as [J71 _]. destruct G7 as [G71 _].
+      pose proof (before_write_facts st7) as (B1 & B2 & B3 & B4 & B5). pose proof w_write_pos.
+      destruct (flush_nostall c (before_write st7) Hs ltac:(lia) ltac:(lia) ltac:(congruence)) as (F1 & F2 & F3 & F4 & F5).
+      assert (Hnow : s_now (fst (flush c (before_write st7))) = s_now st7).
+      { unfold flush. rewrite B5, J71, B4. destruct (s_held st7) as [|h hs]; [exact B1|].
+        pose proof (arm_facts (before_write st7)) as (A1 & A2 & A3 & _).
+        rewrite (conn_write_nostall c (arm (before_write st7)) (h :: hs) Hs ltac:(lia) ltac:(lia)). cbn. lia. }
+      destruct (flush c (before_write st7)) as [st1' e']. cbn [fst snd] in *.
+      match goal with |- s_served (stage c ?x id ?b) = _ =>
+        destruct (stage_nostall c x id b Hs ltac:(cbn; lia) ltac:(exact F2)) as (_ & _ & T3); rewrite T3 end.
+      cbn. congruence.
+    + destruct J7 as [J71 _]. destruct G7 as [G71 _].
+      destruct (stage_nostall c st7 id false Hs G71 J71) as (_ & _ & T3). congruence.
+Qed.
+
+(* For a client that keeps reading (and whatever else it does: timing, half-sent frames,
+   closing), whatever the resolution times: the replies written to the connection are exactly
+   those of the frames whose handler ran, each once, in order - no reply is lost, duplicated
+   or invented. *)
+Lemma reading_client_exactly_once qt frames c :
+  tc_stall c < 0 ->
+  let fin := serve_conn c qt (S (length (tc_chunks c))) frames 1 w_first (st0 c) in
+  written_ids (run_conn qt frames c) = seq 1 (s_served fin).
+Proof.
+  intros Hs. cbn zeta. unfold run_conn.
+  apply (serve_conn_J c qt _ frames 1%nat w_first (st0 c) Hs); [split; cbn; [lia|constructor]| |reflexivity|exact w_first_pos].
+  split; reflexivity.
 Qed.
